@@ -199,9 +199,21 @@ def r2_pairing(repo: Repo, rep):
             out = gcs[0].args[0].func.value if isinstance(gcs[0].args[0], ast.Call) and isinstance(gcs[0].args[0].func, ast.Attribute) else None
             nr = _narrow(out) if out is not None else None
             good = nr is not None and nr[0] == mo and dump(nr[2]) == i
-            src = ast.unparse(fi.node).replace(" ", "")
-            good = good and "torch.cat(Du_i,dim=1)" in src and "torch.stack(Du_rows,dim=1)" in src
             detail = f"row index {dump(nr[2]) if nr else None}"
+            # structure of the result: stack([cat([grad ...], dim=1)], dim=1) on the expanded return
+            for p in paths(fi.node):
+                if p.ret is RAISE or p.ret is None:
+                    continue
+                r = p.ret
+                ok_stack = isinstance(r, ast.Call) and attr_chain(r.func) == "torch.stack" and dump(kwarg(r, "dim", 1)) == "1" and isinstance(r.args[0], ast.List) and len(r.args[0].elts) == 1
+                if ok_stack:
+                    row = r.args[0].elts[0]
+                    ok_stack = isinstance(row, ast.Call) and attr_chain(row.func) in ("torch.cat", "torch.column_stack") and (attr_chain(row.func) == "torch.column_stack" or dump(kwarg(row, "dim", 1)) in ("1", "-1")) \
+                        and isinstance(row.args[0], ast.List) and len(row.args[0].elts) == 1 and "torch.autograd.grad(" in dump(row.args[0].elts[0])
+                good = good and ok_stack
+                if not ok_stack:
+                    detail += f"; result {dump(r)[:80]}"
+                break
     rep.check(R, good, fi.site(), fi.fq, "J[:, i, :] = cat_v d(u_i)/dv (variables in call order), rows stacked on axis 1", detail or "idiom not recognised", detail or "jac")
 
 
